@@ -53,7 +53,11 @@ def _install_geom(responses):
         log.append(("to_crs", c, resolution))
         if c == self.crs:
             return self
-        l, b, r, t = responses.pop(0)
+        if not responses:
+            log.append(("unexpected_to_crs", c))
+            l, b, r, t = rconst(0), rconst(0), rconst(1), rconst(1)
+        else:
+            l, b, r, t = responses.pop(0)
         return FakeGeometry([(l, b), (l, t), (r, t), (r, b), (l, b)], c)
 
     FakeGeometry.buffer = buffer
@@ -208,7 +212,14 @@ def h_own_crs(res, spelling, mode, pin, req=None, anchor="default", tight=False,
 
 
 # ---- E3: another CRS, footprint as a symbolic box --------------------------------------------
-DST = {"metre": "epsg:32633", "degree": "epsg:4326", "albers": "epsg:3577"}
+DST = {"metre": "epsg:32633", "degree": "epsg:4326", "albers": "epsg:3577", "polar": "epsg:3031", "polar_n": "epsg:3413"}
+
+
+def _unit_names(crs):
+    """the harness's own reading of 'share units': the unit names of the axes, whatever their directions"""
+    from odc.geo.crs import CRS
+
+    return sorted({a.unit_name for a in CRS(crs)._crs.axis_info})
 
 
 def _fp_box(pin, tag="fp"):
@@ -242,7 +253,7 @@ def h_other_crs(res, dst, mode, pin, req=None, anchor="default", tight=False, fi
         kw["anchor"] = a
     if tight:
         kw["tight"] = True
-    same_units = dst in ("metre", "albers")
+    same_units = _unit_names(SRC_CRS) == _unit_names(dcrs)
     uses_fit = mode == "fit" or (mode == "auto" and not same_units)
     calls = []
     if mode == "explicit":
@@ -291,6 +302,8 @@ def h_other_crs(res, dst, mode, pin, req=None, anchor="default", tight=False, fi
 
     def fake_scale(pt, tr, r=None):
         calls.append(("scale", pt, tr))
+        if not uses_fit:
+            return xy_(rconst(1), rconst(1))
         return xy_(rconst(sx), rconst(sy))
 
     ov.native_pix_transform, ov.get_scale_at_point = fake_npt, fake_scale
@@ -304,6 +317,9 @@ def h_other_crs(res, dst, mode, pin, req=None, anchor="default", tight=False, fi
     t_calls = [e for e in log if e[0] == "to_crs"]
     prove("footprint_requested_in_the_target_crs", len(t_calls) >= 1 and t_calls[0][1] == CRS(dcrs))
     bufs = [e[1] for e in log if e[0] == "buffer"]
+    rsl = t_calls[0][2]
+    span = symx.m_max(abs(ex(g.shape.x) * rx), abs(ex(g.shape.y) * ry)) + 2 * ex(bufs[0]) if bufs else None
+    prove("footprint_edges_are_followed_not_just_the_corners", rsl is not None and span is not None and And(ex(rsl) > 0, ex(rsl) <= span))
     prove("footprint_buffered_outwards_before_projecting", len(bufs) == 1 and bool(ex(bufs[0]) >= 0) and log.index(("buffer", bufs[0])) < log.index(t_calls[0]))
     if uses_fit:
         sc = [c for c in calls if c[0] == "scale"]
@@ -445,6 +461,29 @@ def h_entry_points(entry):
     prove("option_values_unchanged", all(kw[k] is opts[k] or (k == "shape" and tuple(kw[k]) == tuple(opts[k])) for k in opts if k in kw))
 
 
+def h_reproject_options():
+    """xr_reproject(src, "<crs>", **options): the grid options are separated from the warp options
+    and reach the output-grid computation unchanged"""
+    import odc.geo._xr_interop as xi
+
+    tol = Real("tol")
+    assume(And(tol > 0, tol < 1))
+    fr = Real("anchor")
+    assume(And(fr >= 0, fr < 1))
+    n = Int("n", 1)
+    cb = lambda v, u: v  # noqa: E731
+    grid = dict(resolution="fit", shape=(n, 7), tight=True, anchor=fr, tol=tol, round_resolution=cb)
+    warp = dict(src_nodata=0, num_threads=2, chunks=(3, 4), XSCALE=1)
+    kw = {**warp, **grid}
+    got = xi._extract_output_geobox_params(kw)
+    prove("grid_options_are_picked_out", set(got) == set(grid) and all(got[k] is grid[k] for k in grid))
+    prove("warp_options_stay_behind", set(kw) == set(warp) and all(kw[k] is warp[k] for k in warp))
+    # a falsy option value is an option all the same
+    kw2 = dict(tight=False, tol=0, shape=None, anchor=0, num_threads=1)
+    got2 = xi._extract_output_geobox_params(kw2)
+    prove("falsy_values_are_handed_on_too", set(got2) == {"tight", "tol", "shape", "anchor"} and set(kw2) == {"num_threads"})
+
+
 # ---- U: utm selection ---------------------------------------------------------------------------
 class _Info:
     def __init__(self, code):
@@ -580,6 +619,7 @@ def _other_params(tier, rng):
     for r in (RES_Q if tier == "quick" else RES_T):
         for pin in ("x", "y"):
             out.append(dict(res=r, dst="metre", mode="auto", pin=pin))
+            out.append(dict(res=r, dst=("polar", "polar_n")[i % 2], mode="auto", pin=pin))
             out.append(dict(res=r, dst="albers", mode="same", pin=pin, anchor=("center", "fraction")[i % 2]))
             out.append(dict(res=r, dst="degree", mode="same", pin=pin, tight=True))
             out.append(dict(res=r, dst="degree", mode="explicit", pin=pin, req=["1/400", "-1/400"], anchor=("default", "xy", "edge")[i % 3]))
@@ -620,6 +660,8 @@ OBLIGATIONS = [
     Ob("E5_bad_resolution", h_bad_resolution, fixed(), descr="an unknown resolution keyword is refused with ValueError", functions=("odc.geo.overlap.compute_output_geobox",), **COMMON),
     Ob("E6_entry_points", h_entry_points, fixed(dict(entry="GeoBox.to_crs"), dict(entry="odc.output_geobox")),
        descr="GeoBox.to_crs and .odc.output_geobox hand every option on unchanged", functions=("odc.geo.geobox.GeoBox.to_crs", "odc.geo._xr_interop.ODCExtension.output_geobox"), **COMMON),
+    Ob("E6_reproject_options", h_reproject_options, fixed(), descr="xr_reproject(src, crs, **options): grid options are separated from warp options and handed on unchanged (falsy values included)",
+       functions=("odc.geo._xr_interop._extract_output_geobox_params",), **COMMON),
     Ob("U1_utm", h_utm, fixed(*[dict(request=r, n_cand=n) for r in ("utm", "utm-n", "utm-s") for n in (1, 2, 4)]),
        descr="'utm': the database candidate with the largest share of the raster (the first one for a point); 'utm-n'/'utm-s': that zone in the requested hemisphere",
        functions=("odc.geo.crs.norm_crs", "odc.geo.crs.CRS.utm", "odc.geo.crs._pick_best_crs"), bounds="<= 4 candidate zones (33N, 33S, 34N, 34S) listed in a symbolic rotation, symbolic overlap shares and region area",
